@@ -194,3 +194,19 @@ def view_aliases(u4):
     v = u4[1:3, 1:3]
     v.fill(9)
     return u4
+
+
+def int_update_mask(i4, j4):
+    src = i4
+    dst = np.maximum(j4, j4)
+    valid = (src != 0) & ((dst == 0) | (src > dst))
+    np.putmask(dst, valid, src)
+    return (valid, dst)
+
+
+def mask_precedence(i4, j4):
+    src = i4
+    dst = j4
+    a = (src != 0) & (dst == 0) | (src > dst)
+    b = ((src != 0) & (dst == 0)) | (src > dst)
+    return (a, b)
